@@ -41,6 +41,7 @@ type saoWorld struct {
 	nData     int
 	nCommit   int
 	longRun   bool
+	exportEvery int
 }
 
 func (w *saoWorld) newDataId() string {
@@ -567,8 +568,8 @@ func weighted(rng *rand.Rand, muts []string, pMal int) string {
 	return ""
 }
 
-func runSaoHistory(r *Recorder, rng *rand.Rand, accts []*Account, nOps int, long bool) {
-	w := &saoWorld{rng: rng, r: r, c: r.c, longRun: long}
+func runSaoHistory(r *Recorder, rng *rand.Rand, accts []*Account, nOps int, long bool, exportEvery int) {
+	w := &saoWorld{rng: rng, r: r, c: r.c, longRun: long, exportEvery: exportEvery}
 	w.setup(accts)
 	done := 0
 	maxBlocks := 400
@@ -617,6 +618,9 @@ func runSaoHistory(r *Recorder, rng *rand.Rand, accts []*Account, nOps int, long
 			done++
 		}
 		r.EndBlock()
+		if w.exportEvery > 0 && rng.Intn(w.exportEvery) == 0 && w.c.Halted == "" {
+			r.ExportImport()
+		}
 		// time
 		switch y := rng.Intn(10); {
 		case y < 5:
